@@ -331,7 +331,8 @@ generate (uint64_t seed, int tier, const char *property, scenario_t *sc)
     gen_bits (&g, 0, FC_32, 40, 8, 0);                      /* scratch destination for the first use */
     for (k = SH0; k < M_NIMG; k++)
     {
-	switch (rng_n (&r, 5))
+	if (rng_chance (&r, 1, 10)) gen_yuv (&g, k);
+	else switch (rng_n (&r, 5))
 	{
 	case 0: gen_solid (&g, k); break;
 	case 1: gen_gradient (&g, k); break;
